@@ -10,6 +10,7 @@ package internal
 // Bit 5: Indicates if this entry is from NVM.
 // Bit 6: Indicates if this entry is deleted by API.
 // Bit 7: Indicates if this entry is window.
+// Bit 8: Indicates that an update of this entry reached the policy before the entry's own insert event.
 type Flag struct {
 	Flags int8
 }
@@ -60,6 +61,18 @@ func (f *Flag) SetFromNVM(isFromNVM bool) {
 	} else {
 		f.Flags &^= (1 << 4) // Clear bit 5 (from NVM)
 	}
+}
+
+func (f *Flag) SetUpdatedEarly(updatedEarly bool) {
+	if updatedEarly {
+		f.Flags |= -128 // Set bit 8 (updated before inserted)
+	} else {
+		f.Flags &^= -128 // Clear bit 8 (updated before inserted)
+	}
+}
+
+func (f *Flag) IsUpdatedEarly() bool {
+	return (f.Flags & -128) != 0
 }
 
 func (f *Flag) SetDeleted(isDeleted bool) {
